@@ -317,6 +317,8 @@ pub struct ChainSnapshot {
     pub lc_index: Vec<(u64, SaitoHash)>,
     /// stored blocks: (hash, id, in_longest_chain)
     pub blocks: Vec<(SaitoHash, u64, bool)>,
+    /// per stored block (same order): does the block ring hold an entry for it at its height?
+    pub in_ring: Vec<bool>,
     /// utxo entries (key, spendable flag)
     pub utxo: Vec<(SaitoUTXOSetKey, bool)>,
     pub last_block_id: u64,
@@ -383,6 +385,10 @@ impl Node {
         let mut blocks: Vec<(SaitoHash, u64, bool)> =
             bc.blocks.values().map(|b| (b.hash, b.id, b.in_longest_chain)).collect();
         blocks.sort();
+        let in_ring: Vec<bool> = blocks
+            .iter()
+            .map(|(h, id, _)| bc.blockring.contains_block_hash_at_block_id(*id, *h))
+            .collect();
         let mut utxo: Vec<(SaitoUTXOSetKey, bool)> =
             bc.utxoset.iter().map(|(k, v)| (*k, *v)).collect();
         utxo.sort();
@@ -391,6 +397,7 @@ impl Node {
             tip_hash,
             lc_index,
             blocks,
+            in_ring,
             utxo,
             last_block_id: bc.last_block_id,
             last_block_hash: bc.last_block_hash,
